@@ -249,6 +249,25 @@ CLAIMS = {
              'modelled by bshape/bget/assign). Not modelled: the STIL grammar/StilTransformer. The logic simulation inside tests_loc is an '
              'input of the model (C01/C02 cover LogicSim); the oracle evaluates the next state itself (Kleene). Domain: chain lists have '
              'both port entries; kinds are ASCII; a one-row interface (numpy would broadcast it) is excluded.'),
+    'C09': dict(
+        technique='Coq proof of a graph-consistency invariant for a Gallina transcription of circuit.py over all edit histories; '
+                  'state-by-state correspondence on random histories; independent invariant oracle with shrinking',
+        text='Proof (full for every edit except substitute). Model/Circuit.v transcribes GrowingList, IndexList, Node, Line and the Circuit '
+             'mutators with creation-order ids for object identity. Proved for ALL circuits / ALL histories of well-formed use '
+             '(fresh names, explicit pins only on free positions and on forks only the next one, nodes removed after their lines, ports not '
+             'removed): Node(), Line() (implicit/explicit pins), Line.remove (swap-with-last, fork squeeze and renumbering), Node.remove, '
+             'io_nodes[]=, get_or_add_fork, remove_dangling_nodes, eliminate_1to1_forks, copy and the pickle round trip do not raise and '
+             'preserve: indices = list positions, name lookups exact, every line referenced from exactly the two pins it records, no pin '
+             'refers to a removed line, fork outputs gap-free, every io_nodes entry a listed node; copy = pickle round trip and both keep '
+             'the canonical form; Circuit.stats equals the counts over the containers; the executable checker cinv_b is sound. '
+             'substitute / resolve_tlib_cells: NOT a theorem -- modelled, compared with the code after every step and checked with the '
+             'sound executable invariant on every generated history and on every cell of the five libraries; a Coq witness shows the '
+             'invariant failed for the code before commit 119be80 (dangling logic removed while outputs were still detached).',
+        design_ref='5/C09',
+        note='Modelled not verified: Model/Circuit.v is a hand transcription tied to circuit.py by comparing the complete canonical state '
+             '(node/line tables with pins, dicts, io list, stats, raising behaviour) after EVERY step of random histories; object identity '
+             'is observed by wrapping Node/Line.__init__ in the harness. Out of the proved domain: substitute/resolve_tlib_cells '
+             '(stretch item; correspondence + oracle only), negative pin numbers, nodes of another circuit, non-ASCII kind names in stats.'),
 }
 
 NOT_YET = 'check not built yet in this session (see DESIGN.md section 8 build order); no claim is made'
